@@ -8,6 +8,8 @@ import warnings
 from dataclasses import dataclass, field
 from typing import Dict, List, Optional, Tuple
 
+from .canon import canonicalise
+
 PKG = "hypergraphx"
 
 
@@ -165,6 +167,7 @@ class Program:
                             tree = ast.parse(src, filename=path)
                 except SyntaxError as e:
                     raise AnalysisError(f"cannot parse {rel}: {e}")
+                tree = canonicalise(tree)
                 m = ModuleInfo(modname, path, rel, src, tree)
                 self.modules[modname] = m
                 self._index_module(m)
@@ -183,6 +186,7 @@ class Program:
                     tree = ast.parse(src, filename=rel)
             except SyntaxError as e:
                 raise AnalysisError(f"cannot parse {rel}: {e}")
+            tree = canonicalise(tree)
             m = ModuleInfo(modname, os.path.join(self.repo, rel), rel, src, tree)
             self.modules[modname] = m
             self._index_module(m)
